@@ -57,3 +57,18 @@ Example C09_example_syntax_error :
 Proof. vm_compute. reflexivity. Qed.
 Goal True. idtac "ASSUMPTIONS-OF C09_example_syntax_error". Abort.
 Print Assumptions C09_example_syntax_error.
+
+(* A rule that FAILS with an exception (a FortranSyntaxError or any other Exception raised below it)
+   is a frame step too: it ends in the scope it started in, and when it was started inside a scope
+   whose path names existing tables, the tables afterwards differ from the tables before only in the
+   children list of that scope's table -- the tables of other program units and of the enclosing
+   scopes are not touched by the failed attempt.  Every table that passes the check, every leaf oracle.
+   (At the top level -- the empty path -- the frame says nothing about the list of top-level tables:
+   that is where the two recorded findings live.) *)
+From FV Require Import EngineRel ScopeFrame.
+Theorem C09_failed_rule_touches_only_its_own_scope :
+  forall (T : table) (L : item -> cls -> list cls -> leafres), table_ok T = true ->
+  forall fuel c s e s', new T L fuel c s = (Raise e, s') -> is_exception e = true -> frame (sc s) (sc s').
+Proof. exact failed_rule_frame. Qed.
+Goal True. idtac "ASSUMPTIONS-OF C09_failed_rule_touches_only_its_own_scope". Abort.
+Print Assumptions C09_failed_rule_touches_only_its_own_scope.
